@@ -23,8 +23,9 @@ ASSUMPTIONS = [
 ]
 ENZ = "BsaI"
 # reference pools: numbers are identities of reference *contents*; equal numbers in two records = shared reference
-V_REFS = [[], [1], [1, 2], [2, 1, 3]]
-M_REFS = [[], [1], [4], [4, 1], [2, 4, 1]]
+LONG = list(range(21, 33))       # a 12-entry list: two-digit citation indices
+V_REFS = [[], [1], [1, 2], [2, 1, 3], LONG]
+M_REFS = [[], [1], [4], [4, 1], [2, 4, 1], [1] + LONG[:11]]
 KEPT_CITES = [None, [1], [2], [1, 2], [2, 1], [3], [1, 3]]
 KEPT2_CITES = [None, "last", "first"]
 DROPPED_CITES = [None, [1]]
@@ -37,13 +38,18 @@ def bounds(tier):
 
 
 def goals(tier):
-    return ["shared-reference-merged", "several-citations-on-one-feature", "renumbered", "dropped-feature-cites", "no-citations", "repeated-call"]
+    return ["two-digit-citation-index", "shared-reference-merged", "several-citations-on-one-feature", "renumbered", "dropped-feature-cites", "no-citations", "repeated-call"]
 
 
 def configs(refs_menu):
     out = []
     for refs in refs_menu:
         n = len(refs)
+        if n > 3:
+            for kept in ([10], [12], [11, 2]):
+                for kept2 in (None, [n]):
+                    out.append(dict(refs=refs, kept=kept, kept2=kept2, dropped=None))
+            continue
         for kept in KEPT_CITES:
             if kept and max(kept) > n:
                 continue
@@ -222,6 +228,8 @@ def run_unit(unit, st, tier):
                 st.goal("renumbered")
             if vc["dropped"] or mc["dropped"]:
                 st.goal("dropped-feature-cites")
+            if any(c and max(c) >= 10 for c in (vc["kept"], vc["kept2"], mc["kept"], mc["kept2"])):
+                st.goal("two-digit-citation-index")
             st.goal("repeated-call")
     st.sample(dict(k=k, vc=vc, mc=configs(M_REFS)[-1], calls=2))
 
